@@ -377,12 +377,12 @@ def _decode_lines(fid, l_0, platform, only_first, open_is_dummy=False):
         l_2 = _decode(next(fid))
         tle = _merge_tle_from_two_lines(l_1, l_2)
     elif l_0.strip().startswith(designator):
-        if (platform in SATELLITES or not only_first) or open_is_dummy:
+        if (platform in SATELLITES or not only_first) or (open_is_dummy and not platform):
             l_1 = l_0
             l_2 = _decode(next(fid))
             tle = _merge_tle_from_two_lines(l_1, l_2)
             if platform:
-                LOGGER.debug("Found platform %s, ID: %s", platform, SATELLITES[platform])
+                LOGGER.debug("Found platform %s, ID: %s", platform, SATELLITES.get(platform))
     elif l_0.startswith(platform) and platform not in SATELLITES:
         LOGGER.debug("Found a possible match: %s?", str(l_0.strip()))
 
